@@ -172,18 +172,20 @@ impl<T: Qcow2IoOps> Qcow2Dev<T> {
             split.guest_addr(),
         );
 
-        self.add_l2_slice(
-            l1_e,
-            key,
-            split.l2_slice_off_in_table(info),
-            L2Table::new(None, 1 << info.l2_slice_bits, info.cluster_bits()),
-        )
-        .await?;
+        // A slice which was just added can be evicted by another task
+        // before we get hold of it, so try again then.
+        loop {
+            self.add_l2_slice(
+                l1_e,
+                key,
+                split.l2_slice_off_in_table(info),
+                L2Table::new(None, 1 << info.l2_slice_bits, info.cluster_bits()),
+            )
+            .await?;
 
-        if let Some(entry) = l2_cache.get(key) {
-            Ok(entry)
-        } else {
-            Err("Fail to load l2 table".into())
+            if let Some(entry) = l2_cache.get(key) {
+                return Ok(entry);
+            }
         }
     }
 
